@@ -312,6 +312,24 @@ static void tuples(void) {
     if (cif) cif_destroy(cif);
 }
 
+/* ---------- part C: ASCII codes that a storage layer might take for numbers, NULLs, booleans or patterns ---------- */
+static void ascii_codes(void) {
+    static const char *codes[] = { "10", "010", "10.0", "1e1", "1E1", "+10", "1E+1", "1e01", "0x10", "0X10", "16", "-0", "0", "0.0", "00", "+0", "1.", ".5", "0.5", "5e-1",
+        "inf", "Inf", "nan", "null", "NULL", "true", "TRUE", "1", "01", "1.0", "%", "_", "a%", "a_", "ab", "a*", "a?", "''", "\"\"", "x'y", "x\"y", "x''y", "9223372036854775807",
+        "9223372036854775808", "9.223372036854775807e18", "1e400", "1e-400", "0.1", "0.10", ".1", "1-1", "1/2", "--1", "1;", ";1", "#1", "$1", "[1]", "{1}", "a.b", "a..b" };
+    int n = (int) (sizeof codes / sizeof codes[0]), i, j; long idx = 0; cif_tp *cif = NULL;
+    cif_create(&cif);
+    if (!cif) { viol("ascii", "cif_create failed"); return; }
+    for (i = 0; i < n; i++) for (j = 0; j < n; j++, idx++) {
+        UChar a[64], b[64];
+        if (idx % NW != WK) continue;
+        u_uastrcpy(a, codes[i]); u_uastrcpy(b, codes[j]);
+        check_container_match(cif, a, b);
+        check_key_match("ascii-key", a, b);
+    }
+    cif_destroy(cif);
+}
+
 int main(int argc, char **argv) {
     UErrorCode e = U_ZERO_ERROR;
     const char *tier = argc > 1 ? argv[1] : "quick";
@@ -326,6 +344,9 @@ int main(int argc, char **argv) {
     build_interesting();
     tuples();
     printf("S tuples %ld %ld\n", evals, nontriv);
+    evals = nontriv = 0;
+    ascii_codes();
+    printf("S ascii-codes %ld %ld\n", evals, nontriv);
     printf("I %d\n", nI);
     printf("D %ld\n", nviol);
     return 0;
